@@ -2,27 +2,32 @@ package bancor
 
 import (
 	"fmt"
-	"math/big"
+	"os"
+	"sort"
+	"strconv"
 	"testing"
 	"time"
 )
 
-func TestDev(t *testing.T) {
-	lat := Build(true)
-	lat.Supplies = []*big.Int{pow10(18), pow10(24), plus(pow2(100), -1), plus(pow2(100), 3), plus(pow10(33), -1), pow10(33)}
-	lat.Reserves = []*big.Int{pow10(22), pow10(26), plus(pow2(100), -1), plus(pow2(100), 3), plus(pow10(33), -1), pow10(33)}
-	st := Run(lat, time.Time{}, 8)
-	fmt.Printf("evals=%d nontrivial=%d wall=%v exhaustive=%v\n", st.Evaluations, st.Nontrivial, st.Wall, st.Exhaustive)
-	for f := Func(0); f < NFuncs; f++ {
-		p := st.PerFunc[f]
-		fmt.Printf("%s: evals=%d stage2=%d worst1=%.1f at %s\n   worst2=%.1f at %s\n", FuncNames[f], p.Evaluations, p.Stage2, p.WorstErrLog2, p.WorstAt, p.WorstS2Log2, p.WorstS2At)
+// TestDevRun runs the quick lattice for VERIF_DEV_S seconds and prints the signatures (development aid).
+func TestDevRun(t *testing.T) {
+	secs, _ := strconv.Atoi(os.Getenv("VERIF_DEV_S"))
+	if secs == 0 {
+		t.Skip("set VERIF_DEV_S")
 	}
-	for s, n := range st.SigCounts {
-		fmt.Printf("SIG %s: %d\n", s, n)
+	st := Run(Build(true), time.Now().Add(time.Duration(secs)*time.Second), 0)
+	fmt.Printf("evals=%d nontrivial=%d wall=%v exhaustive=%v\n", st.Evaluations, st.Nontrivial, st.Wall, st.Exhaustive)
+	var sigs []string
+	for s := range st.SigCounts {
+		sigs = append(sigs, s)
+	}
+	sort.Strings(sigs)
+	for _, s := range sigs {
+		fmt.Printf("SIG %s: %d\n", s, st.SigCounts[s])
 	}
 	seen := map[string]bool{}
 	for _, v := range st.Violations {
-		if !seen[v.Signature] {
+		if !seen[v.Signature] && len(seen) < 4 {
 			seen[v.Signature] = true
 			fmt.Printf("---- %s\n%s\n", v.Signature, v.Detail)
 		}
